@@ -678,4 +678,149 @@ theorem stuck_of_single (s : LockSys) (t : Task) (htasks : s.tasks = [t])
     | cons o r =>
       cases o <;> simp only [lstep] at hm ⊢ <;> first | exact hm | simp at hm
 
+/-! ### the document store is only written while no request task is alive -/
+
+theorem storeQuiet_mono : ∀ (ops : List Op) (q h : Bool), storeQuiet ops false h = true → storeQuiet ops q h = true
+  | [], _, _, _ => rfl
+  | .dbWrite :: r, q, h, hs => by simpa [storeQuiet] using hs
+  | .spawn :: r, q, h, hs => by simpa [storeQuiet] using hs
+  | .acqVfsW :: r, q, h, hs => by simp [storeQuiet] at hs
+  | .acqVfsR :: r, q, h, hs => by simp [storeQuiet] at hs
+  | .relVfs :: r, q, h, hs => by
+    simp only [storeQuiet] at hs ⊢
+    exact storeQuiet_mono r q false hs
+  | .snap :: r, q, h, hs => by
+    simp only [storeQuiet] at hs ⊢
+    exact storeQuiet_mono r q h hs
+  | .call _ :: r, q, h, hs => by
+    simp only [storeQuiet] at hs ⊢
+    exact storeQuiet_mono r q h hs
+
+/-- the invariant of the second discipline: the rest of the loop's work is quiet from here (with
+`q` = no task is alive now), and the guard is only held while no task is alive -/
+def SQInv (s : LockSys) : Prop :=
+  storeQuiet s.mainOps (!s.tasks.any taskAlive) s.mainHoldsVfs = true ∧
+    (s.mainHoldsVfs = true → s.tasks.any taskAlive = false)
+
+theorem any_alive_of_getElem {l : List Task} {i : Nat} {t : Task} (hi : l[i]? = some t) (ha : taskAlive t = true) :
+    l.any taskAlive = true :=
+  List.any_eq_true.mpr ⟨t, List.mem_of_getElem? hi, ha⟩
+
+theorem stepTask_alive {hv ww c : Bool} {t t' : Task} (h : stepTask hv ww c t = some t') : taskAlive t = true := by
+  obtain ⟨prog, held⟩ := t
+  cases prog with
+  | nil => simp [stepTask] at h
+  | cons o r => simp [taskAlive]
+
+/-- a step that changes the task list only while some task is alive keeps the invariant -/
+theorem sqinv_of_alive {s : LockSys} (hi : SQInv s) (ha : s.tasks.any taskAlive = true) (tasks' : List Task) :
+    SQInv { s with tasks := tasks' } := by
+  obtain ⟨h1, h2⟩ := hi
+  have hh : s.mainHoldsVfs = false := by
+    cases hm : s.mainHoldsVfs
+    · rfl
+    · rw [h2 hm] at ha; exact absurd ha (by simp)
+  rw [ha] at h1
+  refine ⟨storeQuiet_mono _ _ _ h1, ?_⟩
+  intro hm
+  simp only at hm
+  rw [hh] at hm; exact absurd hm (by simp)
+
+theorem lstep_sq_task {s s' : LockSys} {i : Nat} (hi : SQInv s) (h : lstep s (.task i) = some s') : SQInv s' := by
+  simp only [lstep] at h
+  split at h
+  · simp at h
+  · rename_i t hget
+    split at h
+    · simp at h
+    · rename_i t' hstep
+      simp at h; subst h
+      exact sqinv_of_alive hi (any_alive_of_getElem hget (stepTask_alive hstep)) _
+
+theorem lstep_sq_exit {s s' : LockSys} {i : Nat} (hi : SQInv s) (h : lstep s (.exit i) = some s') : SQInv s' := by
+  simp only [lstep] at h
+  split at h
+  · simp at h
+  · rename_i t hget
+    split at h
+    · rename_i ha
+      simp at h; subst h
+      exact sqinv_of_alive hi (any_alive_of_getElem hget ha) _
+    · simp at h
+
+theorem lstep_sq_main {s s' : LockSys} {c : Nat} (hi : SQInv s) (h : lstep s (.main c) = some s') : SQInv s' := by
+  obtain ⟨ops, held, ww, cancel, tasks, handlers⟩ := s
+  obtain ⟨h1, h2⟩ := hi
+  simp only at h1 h2
+  cases ops with
+  | nil => simp [lstep] at h
+  | cons o r =>
+    cases o <;> simp only [lstep] at h
+    case acqVfsW =>
+      simp only [storeQuiet, Bool.and_eq_true, Bool.not_eq_true'] at h1
+      split at h
+      · split at h
+        · simp at h
+        · simp at h; subst h
+          exact ⟨by simpa [storeQuiet, h1.1] using h1.2, h2⟩
+      · simp at h; subst h
+        exact ⟨by simpa [h1.1] using h1.2, fun _ => h1.1⟩
+    case acqVfsR =>
+      simp only [storeQuiet, Bool.and_eq_true, Bool.not_eq_true'] at h1
+      split at h
+      · split at h
+        · simp at h
+        · simp at h; subst h
+          exact ⟨by simpa [storeQuiet, h1.1] using h1.2, h2⟩
+      · simp at h; subst h
+        exact ⟨by simpa [h1.1] using h1.2, fun _ => h1.1⟩
+    case relVfs =>
+      simp only [storeQuiet] at h1
+      simp at h; subst h
+      exact ⟨h1, by simp⟩
+    case dbWrite =>
+      simp only [storeQuiet] at h1
+      split at h
+      · split at h
+        · simp at h
+        · simp at h; subst h
+          exact ⟨by simpa [storeQuiet] using h1, h2⟩
+      · rename_i ha
+        simp at h; subst h
+        have ha' : tasks.any taskAlive = false := by simpa using ha
+        exact ⟨by simpa [ha'] using h1, h2⟩
+    case snap =>
+      simp only [storeQuiet] at h1
+      simp at h; subst h
+      exact ⟨h1, h2⟩
+    case spawn =>
+      simp only [storeQuiet, Bool.and_eq_true, Bool.not_eq_true'] at h1
+      simp at h; subst h
+      obtain ⟨hf, h1⟩ := h1
+      subst hf
+      exact ⟨storeQuiet_mono _ _ _ h1, by simp⟩
+    case call m =>
+      simp only [storeQuiet] at h1
+      simp at h; subst h
+      exact ⟨h1, h2⟩
+
+theorem lstep_sq {s s' : LockSys} {a : LAct} (hi : SQInv s) (h : lstep s a = some s') : SQInv s' := by
+  cases a with
+  | main c => exact lstep_sq_main hi h
+  | task i => exact lstep_sq_task hi h
+  | exit i => exact lstep_sq_exit hi h
+
+theorem lrun_sq : ∀ (acts : List LAct) (s s' : LockSys), lrun s acts = some s' → SQInv s → SQInv s'
+  | [], s, s', h, hs => by simp [lrun] at h; subst h; exact hs
+  | a :: as, s, s', h, hs => by
+    simp only [lrun] at h
+    split at h
+    · rename_i s1 h1
+      exact lrun_sq as s1 s' h (lstep_sq hs h1)
+    · simp at h
+
+theorem initLock_sq (ops : List Op) (handlers : List (List TOp)) (tasks : List Task)
+    (h : storeQuiet ops (!tasks.any taskAlive) false = true) : SQInv (initLock ops handlers tasks) :=
+  ⟨h, by simp [initLock]⟩
+
 end Glas.Conc
